@@ -1,4 +1,5 @@
 import Litep2pVerif.Proofs.Service.Conns
+import Litep2pVerif.Proofs.Node.Wiring
 /-!
 # C08 — Protocols see a well-formed per-peer connection and substream event stream
 
@@ -143,3 +144,43 @@ end Litep2pVerif.Props.C08
 #print axioms Litep2pVerif.Props.C08.open_answered_at_most_once
 #print axioms Litep2pVerif.Props.C08.open_answered_once_unless_closed
 #print axioms Litep2pVerif.Props.C08.ids_fresh
+
+/-! ## Wiring — what `Litep2p::new` hands over (coverage round `node`)
+
+Over the wiring model `Model/Node/Wiring.lean` (`Node.new c` = `Litep2p::new(ConfigBuilder…build())`), which is tied to
+the real `ConfigBuilder`/`Litep2p::new` by the `node` area: the adapter prints the ACTUAL registration record of a node built
+through the public API, the driver prints the model's, compared field by field on every run. -/
+namespace Litep2pVerif.Props.C08.Wiring
+open Litep2pVerif Litep2pVerif.Node
+
+/-- A configuration with every kind of protocol (used by the non-vacuity examples). -/
+def sample : Config :=
+  { keepAliveMs := some 600, limits := some (some 2, none), listen := [1, 2],
+    notif := [⟨"/n/a", 1024, "0102", ["/n/old"], 'a'⟩],
+    rr := [⟨"/r/a", 256, 800, ["/r/old"], none⟩, ⟨"/r/b", 64, 800, [], some 1⟩],
+    user := [⟨"/u/a", .varint none⟩], kad := [⟨[], none⟩], ping := some 1, identify := true, bitswap := true,
+    known := some [(0, [.listen 0, .closed, .quic, .wrongPeer 0, .noPeer 0])] }
+
+/-- Identify is told exactly the protocols that were registered (every user protocol among them), and every protocol's
+event loop is handed to the executor. -/
+theorem identify_told_every_registered_protocol (c : Config) (w : Wired) (h : Node.new c = .ok w) :
+    w.identifyProtocols = w.regs.map (·.name) ∧ w.spawned = w.regs.length ∧
+    (∀ p ∈ (build c).user, p.name ∈ w.identifyProtocols) ∧
+    (∀ p ∈ (build c).notif, p.name ∈ w.identifyProtocols) ∧
+    (∀ p ∈ (build c).rr, p.name ∈ w.identifyProtocols) := by
+  obtain ⟨_, _, rfl⟩ := wire_ok h
+  refine ⟨rfl, rfl, ?_, ?_, ?_⟩
+  · intro p hp
+    exact List.mem_map.mpr ⟨_, user_mem_registrations _ hp, rfl⟩
+  · intro p hp
+    exact List.mem_map.mpr ⟨_, notif_mem_registrations _ hp, rfl⟩
+  · intro p hp
+    exact List.mem_map.mpr ⟨_, rr_mem_registrations _ hp, rfl⟩
+
+example : ∃ w, Node.new sample = .ok w ∧ w.identifyProtocols =
+    ["/n/a", "/r/a", "/r/b", "/u/a", pingName, kadName, identifyName, bitswapName] ∧ w.spawned = 8 :=
+  ⟨_, rfl, by decide, rfl⟩
+
+end Litep2pVerif.Props.C08.Wiring
+
+#print axioms Litep2pVerif.Props.C08.Wiring.identify_told_every_registered_protocol
